@@ -65,6 +65,39 @@ def step_nodes(st, method, nt, opts, d, m, degt, degy):
     return mk, solver, [y1.sym[0, i] for i in range(d)], F, G, m
 
 
+def _two_steps(st, method, nt, opts, d, m, degt, degy, symbolic, env=None):
+    """the step under test on (a) an instance that already took a step of a different size from a different start and (b) a
+    fresh instance; returns both results (y1, extra1)"""
+    from torchsde._core import methods
+    mk, sde, fsde, bm, solver, t0, hh, y0, m = build(st, method, nt, opts, d, m, degt, degy, symbolic=symbolic, env=env)
+    hw = mk('hw', (), values=0.0173)
+    yw = mk('yw', tuple(y0.shape), values=0.25 + 0.07 * np.arange(y0.numel()).reshape(tuple(y0.shape)))
+    tw = t0 + hh
+    solver.step(tw, tw + hw, yw, solver.init_extra_solver_state(tw, yw))          # history of the used instance
+    used = solver.step(t0, t0 + hh, y0, solver.init_extra_solver_state(t0, y0))
+    fresh_solver = methods.select(method, st)(sde=fsde, bm=bm, dt=solver.dt, adaptive=False, rtol=0, atol=0, dt_min=0, options=dict(opts))
+    fresh = fresh_solver.step(t0, t0 + hh, y0, fresh_solver.init_extra_solver_state(t0, y0))
+    return mk, used, fresh
+
+
+def purity(task):
+    """`step` is a function of its arguments only: no state hidden on the solver object survives from one step to the next
+    (every step of a solve, not only the first one of a fresh solver, is then the step analysed against the Taylor expansion)"""
+    st, method, nt, opts, d, m, degt, degy = task[:8]
+    mk, used, fresh = _two_steps(st, method, nt, opts, d, m, degt, degy, True)
+    from ..e1 import Z
+    Zc = Z()
+    bad = []
+    flat = lambda r: list(r[0].sym.reshape(-1)) + [n for x in r[1] for n in x.sym.reshape(-1)]
+    for k, (a, b) in enumerate(zip(flat(used), flat(fresh))):
+        if a is b:
+            continue
+        r, model = Zc.equal(a, b)
+        bad.append((k, 'sat' if r == 'sat' else ('structure' if r == 'unsat' else r), model))
+        break
+    return dict(config=list(task[:8]), bad=bad, queries=Zc.queries, solver_s=Zc.solver_s)
+
+
 def expectation(ser, m, dWn, Un, ctx_grades):
     """exact Gaussian expectation over the increments: dW_j ~ N(0,h), U_j = h (dW_j/2 + H_j), H_j ~ N(0,h/12) indep.,
     any monomial containing a Levy-area symbol has zero mean at the grades used (odd in A).  Result: series in s."""
@@ -293,8 +326,26 @@ def report(ctx, res, pid='C02'):
                       replay=dict(config=res['config'], p=res.get('p'), kind=f['kind'], mon=f.get('mon'), model=f['model']))
 
 
+def purity_obligations(ctx):
+    """every step, not only the first step of a fresh solver object: step() must not depend on the solver's history"""
+    pt = [(st, method, nt, opts, 2, 2, 1, 1) for st, method, nt, opts in accepted_configs()]
+    for t, (st_, res) in zip(pt, pmap(purity, pt)):
+        gf = ',grad_free' if t[3].get('grad_free') else ''
+        name = f"step is a function of its arguments only {t[:3]}{gf}"
+        if st_ != 'ok':
+            ctx.inconc(name, str(res)[:600]); continue
+        ctx.paths += 1; ctx.queries += res['queries']; ctx.solver_s += res['solver_s']
+        if not res['bad']:
+            ctx.ok(name); continue
+        k, r, model = res['bad'][0]
+        if r == 'unknown':
+            ctx.inconc(name, 'solver unknown'); continue
+        ctx.violation(f"{t[0]},{t[1]},{t[2]}{gf}|step-depends-on-history", f"output component {k} of step() differs between a used and a fresh solver object ({r})",
+                      replay=dict(config=res['config'], kind='purity', model=model, p=None, mon=None))
+
+
 def run(ctx):
-    ctx.fn('methods.select', 'Euler.step', 'MilsteinIto.step', 'MilsteinStratonovich.step', 'BaseMilstein.step (grad_free)',
+    ctx.fn('every solver __init__ (per-instance state)', 'methods.select', 'Euler.step', 'MilsteinIto.step', 'MilsteinStratonovich.step', 'BaseMilstein.step (grad_free)',
            'SRK.diagonal_or_scalar_step', 'SRK.additive_step', 'EulerHeun.step', 'Heun.step', 'Midpoint.step',
            'LogODEMidpoint.step', 'ReversibleHeun.step', 'ReversibleHeun.init_extra_solver_state',
            'ForwardSDE.f_and_g_prod / g_prod / prod / g_prod_and_gdg_prod_* / dg_ga_jvp_column_sum_v1',
@@ -314,6 +365,7 @@ def run(ctx):
             continue
         ctx.sample({'config': res['config'], 'p': res['p'], 'identities': res['queries']})
         report(ctx, res)
+    purity_obligations(ctx)
     # exact textbook formulas
     ex = []
     for st, method, nt in [('ito', 'euler', 'diagonal'), ('ito', 'euler', 'scalar'), ('ito', 'euler', 'additive'), ('ito', 'euler', 'general'),
@@ -363,6 +415,13 @@ def replay(data):
     env = dict(r.get('model') or {})
     if r['kind'] == 'exact':
         return _replay_exact(config, env)
+    if r['kind'] == 'purity':
+        mk, used, fresh = _two_steps(st, method, nt, opts, d, m, degt, degy, False, env=dict(env))
+        flat = lambda q: [q[0]] + list(q[1])
+        diff = max(float((a.detach() - b.detach()).abs().max()) for a, b in zip(flat(used), flat(fresh)))
+        same = all(torch.equal(a.detach(), b.detach()) for a, b in zip(flat(used), flat(fresh)))
+        print('replay C02 purity: max |used - fresh| =', diff)
+        return not same
     p = float(r['p'])
     # symbolic oracle again (cheap) to get Taylor polynomials, evaluated numerically at the model
     mk, solver, nodes, F, G, m = step_nodes(st, method, nt, opts, d, m, degt, degy)
